@@ -390,6 +390,7 @@ func RuleE3i(c *Ctx) {
 	sc := c.Run.Begin("E3i", "for every value memo `if v, ok := M[k]; ok { return v }; v = compute(x); M[k] = v` the leaf fields the computation reads are covered by what the key is computed from (a cache hit can never return a value built from different inputs)", 1)
 	defer sc.End()
 	n := 0
+	perFn := map[string]int{}
 	c.P.Funcs(func(pk *pkgT, fd *ast.FuncDecl) {
 		info := pk.TypesInfo
 		cf := c.CFG(pk, fd.Body)
@@ -414,7 +415,7 @@ func RuleE3i(c *Ctx) {
 				return true
 			}
 			ret, ok := ifs.Body.List[0].(*ast.ReturnStmt)
-			if !ok || len(ret.Results) != 1 {
+			if !ok || len(ret.Results) < 1 {
 				return true
 			}
 			if rid, ok := ret.Results[0].(*ast.Ident); !ok || info.ObjectOf(rid) != info.ObjectOf(vid) {
@@ -434,10 +435,11 @@ func RuleE3i(c *Ctx) {
 				return true
 			}
 			n++
-			key := fmt.Sprintf("%s:memo(%s)#%d", c.P.DeclName(fd), types.ExprString(ix.X), n)
+			perFn[c.P.DeclName(fd)]++
+			key := fmt.Sprintf("%s:memo(%s)#%d", c.P.DeclName(fd), types.ExprString(ix.X), perFn[c.P.DeclName(fd)])
 			fp := &footprint{c: c, seenFn: map[*types.Func]bool{}}
 			valueLeaves := fp.ofExpr(pk, cf, cf.Resolve(store.Rhs[0]), 0)
-			fp2 := &footprint{c: c, seenFn: map[*types.Func]bool{}}
+			fp2 := &footprint{c: c, seenFn: map[*types.Func]bool{}, keyMode: true}
 			keyLeaves := fp2.ofExpr(pk, cf, cf.Resolve(ix.Index), 0)
 			var missing []string
 			for f := range valueLeaves {
@@ -498,6 +500,19 @@ type footprint struct {
 	c      *Ctx
 	seenFn map[*types.Func]bool
 	seenFd map[*types.Var]bool
+	// keyMode under-approximates: what a key is built FROM (so that it can determine it):
+	// field reads in the expression itself, through accessor methods (single-return bodies),
+	// and through the one call that computes the elements of a derived container - never
+	// through arbitrary callees, whose results merely depend on the state they read.
+	keyMode bool
+}
+
+func isAccessor(fd *ast.FuncDecl) bool {
+	if fd == nil || fd.Body == nil || len(fd.Body.List) != 1 {
+		return false
+	}
+	_, ok := fd.Body.List[0].(*ast.ReturnStmt)
+	return ok
 }
 
 func isLeafType(t types.Type) bool {
@@ -537,7 +552,9 @@ func (fp *footprint) ofExpr(pk *pkgT, cf *cfgx.Func, e ast.Expr, depth int) map[
 			}
 		case *ast.CallExpr:
 			if f := Callee(info, x); f != nil {
-				add(fp.ofFunc(f, depth+1))
+				if !fp.keyMode || isAccessor(fp.c.P.Decl(f)) {
+					add(fp.ofFunc(f, depth+1))
+				}
 			}
 		case *ast.Ident:
 			// a local variable: follow its definition
@@ -582,8 +599,10 @@ func (fp *footprint) ofFunc(f *types.Func, depth int) map[*types.Var]bool {
 			}
 		case *ast.CallExpr:
 			if g := Callee(pk.TypesInfo, x); g != nil {
-				for k := range fp.ofFunc(g, depth+1) {
-					out[k] = true
+				if !fp.keyMode || isAccessor(fp.c.P.Decl(g)) {
+					for k := range fp.ofFunc(g, depth+1) {
+						out[k] = true
+					}
 				}
 			}
 		}
@@ -672,6 +691,17 @@ func (fp *footprint) derived(field *types.Var, depth int) map[*types.Var]bool {
 				}
 				for k := range fp.ofExpr(pk, cf, e, depth+1) {
 					out[k] = true
+				}
+				if call, ok := e.(*ast.CallExpr); ok && fp.keyMode {
+					// the one call that computes the stored element: its own reads count
+					if g := Callee(info, call); g != nil {
+						saved := fp.keyMode
+						fp.keyMode = false
+						for k := range fp.ofFunc(g, depth+1) {
+							out[k] = true
+						}
+						fp.keyMode = saved
+					}
 				}
 				if call, ok := e.(*ast.CallExpr); ok {
 					for _, a := range call.Args {
